@@ -224,3 +224,26 @@ impl HtmlFilterBodyAction {
         Ok((self.current_buffer.take(), buffer))
     }
 }
+
+#[cfg(feature = "verif")]
+mod verif_hooks {
+    use super::HtmlFilterBodyAction;
+
+    impl HtmlFilterBodyAction {
+        /// Bytes currently held back by this stage: buffered element contents
+        /// (outermost first), then the trailing incomplete token.
+        pub fn verif_held(&self) -> (Vec<Vec<u8>>, Vec<u8>) {
+            let mut buffers = Vec::new();
+            let mut buffer = self.current_buffer.as_ref();
+
+            while let Some(link) = buffer {
+                buffers.push(link.buffer.as_bytes().to_vec());
+                buffer = link.previous.as_ref();
+            }
+
+            buffers.reverse();
+
+            (buffers, self.last_buffer.clone())
+        }
+    }
+}
